@@ -149,9 +149,16 @@ func famLeaseMgr(args []string, out *bufio.Writer) error {
 	if len(codes) < 50 {
 		return fmt.Errorf("could not read the SDK's service codes (%d found)", len(codes))
 	}
-	ctx := context.Background()
+	bg := context.Background()
+	dead, kill := context.WithCancel(bg)
+	kill()
 	for gen := 1; gen <= 2; gen++ {
 		for _, code := range codes {
+			// a cancellation reaches the lease manager through a context that is done: the calls are made with one
+			ctx := bg
+			if code == "cancelled" {
+				ctx = dead
+			}
 			// ---- container create
 			{
 				lg := &evLog{}
